@@ -204,7 +204,7 @@ func genLazyProgram(t *rapid.T) ([]*Node, []string) {
 	forms = append(forms, u.node)
 	nCalls := rapid.IntRange(1, 4).Draw(t, "ncalls")
 	for i := 0; i < nCalls; i++ {
-		route := rapid.SampledFrom([]string{"direct", "direct", "alias", "parameter", "computed", "apply", "map", "nested-in-function", "tail-recursion"}).Draw(t, "route")
+		route := rapid.SampledFrom([]string{"direct", "direct", "alias", "parameter", "computed", "apply", "map", "nested-in-function", "tail-recursion", "from-closure", "from-closure"}).Draw(t, "route")
 		g.lab("route:" + route)
 		local := "loc"
 		var call *Node
@@ -231,6 +231,20 @@ func genLazyProgram(t *rapid.T) ([]*Node, []string) {
 			// the caller is itself a function with its own local; thunks must see that local
 			forms = append(forms, &Node{K: "defn", S: "caller", Names: []string{"loc"}, Kids: []*Node{NCall(NVar("lf"), g.args(f, "loc")...)}})
 			call = NCall(NVar("caller"), NInt(int64(40+i)))
+		case "from-closure":
+			// the caller is a closure called after its maker returned: argument expressions use
+			// the variable that closure captured (not a local of the frame doing the call)
+			mk := fmt.Sprintf("mkc%d", i)
+			inner := NCall(NVar("lf"), g.args(f, "loc")...)
+			var clo *Node
+			if rapid.Bool().Draw(t, "cloLet") {
+				clo = &Node{K: "fn", Kids: []*Node{&Node{K: "let", Names: []string{"own"}, Kids: []*Node{NInt(1), inner}}}}
+			} else {
+				clo = &Node{K: "fn", Kids: []*Node{inner}}
+			}
+			forms = append(forms, &Node{K: "defn", S: mk, Names: []string{"loc"}, Kids: []*Node{clo}})
+			forms = append(forms, NDef(mk+"c", NCall(NVar(mk), NInt(int64(300+i)))))
+			call = NCall(NVar(mk + "c"))
 		case "tail-recursion":
 			// (defn tr [n #x] (cond (<= n 0) (force #x) (tr (- n 1) (trace (+ n loc)))))
 			forms = append(forms, &Node{K: "defn", S: "tr", Names: []string{"n", "#x"}, Kids: []*Node{
@@ -262,7 +276,7 @@ var checkLazyProgR = reg("C16", "program", func(c progCase) *ev.Failure {
 func TestC16(t *testing.T) {
 	p := begin(t, "C16")
 	r := p.r
-	r.SetRule("case = program defining a function lf with 1-4 parameters in any mix of strict / #lazy / & rest and a unary lu, whose bodies force each lazy parameter never, once, several times, under a condition, inside a let that shadows the caller's local, take (substitute ..) of it, query its type, or return a closure that forces it after the callee returned; 1-4 calls through routes {direct, alias, function parameter, computed callee, apply, map, call from inside another function, tail self-recursion with a lazy parameter}; every argument expression has a (trace ..) effect, bumps a global counter, reads the caller's local, or raises an error. Oracle: reference evaluator with thunks: same value, error-vs-value and trace. Non-trivial: >=1 lazy and >=1 strict parameter and a non-direct route. Distinct by source text.")
+	r.SetRule("case = program defining a function lf with 1-4 parameters in any mix of strict / #lazy / & rest and a unary lu, whose bodies force each lazy parameter never, once, several times, under a condition, inside a let that shadows the caller's local, take (substitute ..) of it, query its type, or return a closure that forces it after the callee returned; 1-4 calls through routes {direct, alias, function parameter, computed callee, apply, map, call from inside another function, call from inside a closure (after its maker returned) with arguments using the captured variable, tail self-recursion with a lazy parameter}; every argument expression has a (trace ..) effect, bumps a global counter, reads the caller's local, or raises an error. Oracle: reference evaluator with thunks: same value, error-vs-value and trace. Non-trivial: >=1 lazy and >=1 strict parameter and a non-direct route. Distinct by source text.")
 	p.rapidSub("program", ev.Scale(5000, 600000), func(t *rapid.T) {
 		forms, labels := genLazyProgram(t)
 		c := progCase{Forms: forms}
